@@ -1,6 +1,6 @@
-use crate::{GameServer, META_STATE};
+use crate::GameServer;
 use futures_util::{StreamExt, TryStreamExt};
-use kube::runtime::watcher::Config;
+use kube::runtime::watcher::{Config, Event};
 use kube::runtime::{WatchStreamExt, watcher};
 use kube::{Api, Client};
 use passage_adapters::discovery::DiscoveryAdapter;
@@ -45,66 +45,83 @@ impl AgonesDiscoveryAdapter {
             Api::all(client.clone())
         };
 
-        // create the watch stream
-        let mut stream = watcher(servers, watch_config)
-            .default_backoff()
-            .applied_objects()
-            .boxed();
+        // create the watch stream; the raw events are needed: `applied_objects()` would
+        // hide deletions and the boundaries of a (re-)list
+        let mut stream = watcher(servers, watch_config).default_backoff().boxed();
 
         // start listener
         let _inner = Arc::clone(&inner);
         let _token = token.clone();
         tokio::spawn(async move {
             info!("starting game server watcher");
+            // the servers of a (re-)list that has not completed yet
+            let mut relist: Option<Vec<Target>> = None;
             loop {
-                // get next server update
-                let maybe_server = tokio::select! {
+                // get next watch event
+                let maybe_event = tokio::select! {
                     biased;
                     _ = _token.cancelled() => break,
-                    maybe_server = stream.try_next() => maybe_server,
+                    maybe_event = stream.try_next() => maybe_event,
                 };
 
-                let server = match maybe_server {
-                    Ok(Some(server)) => server,
+                match maybe_event {
+                    Ok(Some(Event::Init)) => relist = Some(Vec::new()),
+                    Ok(Some(Event::InitApply(server))) => {
+                        apply(relist.get_or_insert_with(Vec::new), server);
+                    }
+                    // everything that was not listed again is gone
+                    Ok(Some(Event::InitDone)) => {
+                        if let Some(listed) = relist.take() {
+                            *_inner.write().await = listed;
+                        }
+                    }
+                    Ok(Some(Event::Apply(server))) => apply(&mut *_inner.write().await, server),
+                    Ok(Some(Event::Delete(server))) => {
+                        if let Some(name) = &server.metadata.name {
+                            remove(&mut *_inner.write().await, name);
+                        }
+                    }
                     Ok(None) => break,
-                    Err(err) => {
-                        warn!(err = ?err, "error while watching game servers");
-                        continue;
-                    }
-                };
-
-                // map to target
-                let target: Target = match server.try_into() {
-                    Ok(target) => target,
-                    Err(err) => {
-                        warn!(err = ?err, "error while converting game server to target");
-                        continue;
-                    }
-                };
-
-                // if ready, replace or push
-                let mut inner = _inner.write().await;
-                let state = target.meta.get(META_STATE).cloned().unwrap_or_default();
-                if state == "Ready" || state == "Allocated" {
-                    info!(uid = target.identifier, "adding game server to cache");
-                    let found = inner.iter_mut().find(|i| i.identifier == target.identifier);
-                    match found {
-                        Some(found) => *found = target,
-                        None => inner.push(target),
-                    }
-                    continue;
-                }
-
-                // remove
-                info!(uid = target.identifier, "removing game server from cache");
-                let found = inner.iter().position(|i| i.identifier == target.identifier);
-                if let Some(found) = found {
-                    inner.swap_remove(found);
+                    // the watcher recovers (and re-lists if necessary) by itself
+                    Err(err) => warn!(err = ?err, "error while watching game servers"),
                 }
             }
         });
 
         Ok(Self { inner, token })
+    }
+}
+
+/// Removes the target with that identifier (if any).
+fn remove(targets: &mut Vec<Target>, identifier: &str) {
+    if let Some(found) = targets.iter().position(|i| i.identifier == identifier) {
+        info!(uid = identifier, "removing game server from cache");
+        targets.swap_remove(found);
+    }
+}
+
+/// Brings the targets up to date with the latest observation of one game server: it is offered
+/// with its current data iff it is ready or allocated and can be converted into a target.
+fn apply(targets: &mut Vec<Target>, server: GameServer) {
+    let Some(name) = server.metadata.name.clone() else {
+        warn!("ignoring game server without name");
+        return;
+    };
+    let state = server.status.as_ref().map(|status| status.state.as_str());
+    let ready = matches!(state, Some("Ready" | "Allocated"));
+    match Target::try_from(server) {
+        Ok(target) if ready => {
+            info!(uid = target.identifier, "adding game server to cache");
+            match targets.iter_mut().find(|i| i.identifier == name) {
+                Some(found) => *found = target,
+                None => targets.push(target),
+            }
+        }
+        Ok(_) => remove(targets, &name),
+        Err(err) => {
+            warn!(err = ?err, "error while converting game server to target");
+            remove(targets, &name);
+        }
     }
 }
 
